@@ -11,6 +11,8 @@
 (*   py     (C18) python: expressions in every command position, gate on and off            *)
 EXTENDS TALES
 
+CONSTANT Quick          \* TRUE: the smaller option sets of the quick tier
+
 \* ---- contexts (sequences of Ent(name, value); gamma turns them into Python objects) ------------
 CtxA == <<
     Ent("s", Str("txt")), Ent("lt", Str("a<b")), Ent("e", Str("")), Ent("n", Num(7)), Ent("z", Num(0)),
@@ -92,15 +94,15 @@ ExprTrees ==
 \* ---- family one: every subset of the six commands ---------------------------------------------------------
 Define1a == CDefine(<<Item(FALSE, "v", P("lt"))>>)
 Define1b == CDefine(<<Item(TRUE, "gv", P("n")), Item(FALSE, "v", Alt(<<P("gv"), P("s")>>))>>)
-CondOpts1   == Opt({CCondition(P("s")), CCondition(P("z")), CCondition(Not(P("v")))})
-RepeatOpts1 == Opt({CRepeat("x", P(p)) : p \in {"lst", "el", "default", "holes", "it", "nul"}})
+CondOpts1   == Opt({CCondition(P("s")), CCondition(P("z"))} \cup (IF Quick THEN {} ELSE {CCondition(Not(P("v")))}))
+RepeatOpts1 == Opt({CRepeat("x", P(p)) : p \in (IF Quick THEN {"lst", "el", "holes", "it"} ELSE {"lst", "el", "default", "holes", "it", "nul"})})
 XorV == Alt(<<P("x"), P("v"), P("s")>>)
-ContentExprs1 == {XorV, P("nothing"), P("default"), S(<<Sub(Alt(<<P("repeat/x/number"), P("zz")>>)), Lit(":"), Sub(XorV)>>)}
+ContentExprs1 == {XorV, P("nothing"), P("default")} \cup (IF Quick THEN {} ELSE {S(<<Sub(Alt(<<P("repeat/x/number"), P("zz")>>)), Lit(":"), Sub(XorV)>>)})
 ContentOpts1 == Opt({CContent(e, FALSE) : e \in ContentExprs1} \cup {CReplace(e, FALSE) : e \in ContentExprs1})
 AttrOpts1   == Opt({CAttributes(<<Item(FALSE, "id", Alt(<<P("x"), P("s")>>)), Item(FALSE, "class", P("nothing"))>>),
                     CAttributes(<<Item(FALSE, "title", S(<<Sub(Alt(<<P("repeat/x/index"), P("z")>>))>>)), Item(FALSE, "id", P("default"))>>),
-                    CAttributes(<<Item(FALSE, "class", Alt(<<P("v"), P("lt")>>))>>)})
-OmitOpts1   == Opt({COmit(NoE), COmit(P("z")), COmit(Alt(<<P("x"), P("s")>>))})
+                    CAttributes(<<Item(FALSE, "class", Alt(<<P("v"), P("lt")>>))>>)} \ (IF Quick THEN {CAttributes(<<Item(FALSE, "class", Alt(<<P("v"), P("lt")>>))>>)} ELSE {}))
+OmitOpts1   == Opt({COmit(NoE), COmit(P("z"))} \cup (IF Quick THEN {} ELSE {COmit(Alt(<<P("x"), P("s")>>))}))
 Tail1Sib == El("i", <<>>, <<CContent(Alt(<<P("v"), P("gv"), P("x"), S(<<Lit("none")>>)>>), FALSE)>>, <<TextN("o")>>)
 \* (split by the define option: the model checker runs one process per part)
 OneTrees(dopts) == {Wrap(Base(d \o c \o r \o ct \o a \o o)) \o <<Tail1Sib>> :
@@ -139,9 +141,9 @@ NestTreesFull(pdopts) == {NestTree(pd \o pc \o pr \o pct \o pa \o po, kd \o kc \
                     kd \in KDefine, kc \in KCond, kr \in KRepeat, kct \in KContent, ka \in KAttr}
 \* quick tier: the parent always repeats or defines; the child has at least one command
 NestTreesQuick(pdopts) == {NestTree(pd \o pc \o pr \o pct \o pa, kd \o kc \o kr \o kct \o ka) :
-                    pd \in pdopts, pc \in Opt({CCondition(P("n"))}), pr \in Opt({CRepeat("r", P("rows")), CRepeat("r", P("lst"))}),
+                    pd \in pdopts, pc \in {<<>>}, pr \in Opt({CRepeat("r", P("rows")), CRepeat("r", P("lst"))}),
                     pct \in Opt({CContent(P("default"), FALSE)}), pa \in PAttr,
-                    kd \in KDefine, kc \in KCond, kr \in KRepeat, kct \in KContent, ka \in KAttr}
+                    kd \in KDefine, kc \in KCond, kr \in KRepeat, kct \in KContent, ka \in {<<>>}}
 \* three levels: repeat in repeat in repeat, define shadowing at every level (depth 3)
 DeepTrees == {<<El("ul", <<>>, Written(<<CRepeat("a", P("rows"))>> \o d1),
                    <<El("li", <<>>, Written(<<CRepeat("b", ab)>> \o d2),
@@ -163,14 +165,14 @@ UseNone == {P("nothing"), P("macros/zz")}
 UseExprs == {P("macros/m1"), Alt(<<P("macros/zz"), P("macros/m1")>>), P("nothing"), P("default"), P("s"), P("macros/zz")}
 MacroTal == Opt({CDefine(<<Item(FALSE, "v", P("lt"))>>), CRepeat("x", P("lst")), CCondition(P("z"))})
 SlotTal  == Opt({CContent(Alt(<<P("x"), P("v"), P("s")>>), FALSE), CCondition(P("z"))})
-FillTal  == Opt({CContent(Alt(<<P("x"), P("v"), P("n")>>), FALSE), CRepeat("y", P("one"))})
+FillTal  == Opt({CContent(Alt(<<P("x"), P("v"), P("n")>>), FALSE)} \cup (IF Quick THEN {} ELSE {CRepeat("y", P("one"))}))
 UseTal   == Opt({CContent(P("s"), FALSE), CDefine(<<Item(TRUE, "gv", P("n"))>>), CRepeat("x", P("one"))})
 MetalSib == El("i", <<>>, <<CContent(Alt(<<P("v"), P("gv"), P("x"), S(<<Lit("none")>>)>>), FALSE)>>, <<>>)
 MetalGen(firsts, ues, uts) ==
     {(IF first THEN <<MacroEl(mt, stl), TextN("/")>> ELSE <<>>) \o <<UseEl(ue, ut, fl), TextN("/")>>
        \o (IF first THEN <<>> ELSE <<MacroEl(mt, stl)>>) \o <<MetalSib>> :
         first \in firsts, mt \in MacroTal, stl \in SlotTal, ue \in ues, ut \in uts,
-        fl \in {<<>>, <<Fill2>>} \cup {<<Fill1(ft)>> : ft \in FillTal} \cup {<<Fill1(ft), Fill2>> : ft \in FillTal}}
+        fl \in {<<>>} \cup (IF Quick THEN {} ELSE {<<Fill2>>}) \cup {<<Fill1(ft)>> : ft \in FillTal} \cup {<<Fill1(ft), Fill2>> : ft \in FillTal}}
 \* E.4 is silent on the other commands of an element whose use-macro evaluates to nothing
 MetalTrees(firsts) == MetalGen(firsts, UseExprs \ UseNone, UseTal) \cup MetalGen(firsts, UseNone, {<<>>})
 \* two uses of the same macro with different fillers, and a template value as structured content
